@@ -162,9 +162,10 @@ pub fn table_serde(dir: &str, _tier: &str, _seed: u64, per: usize) -> (usize, u6
     for &c in &[0i64, 15, 16, 255, -1] {
         for &n in &[0i64, 1, 31, 32, 33, 63, 64, 127, 128, -1] {
             for &v in &[0i64, 1, 16383, 16384, 65535, -1] {
-                let val = json!({"channel": c, "msb_controller_number": n, "value": v});
+              for kind in [3i64, 9] {
+                let val = if kind == 3 { json!({"channel": c, "msb_controller_number": n, "value": v}) } else { json!([c, n, v]) };
                 let (r, _) = guarded(|| from_value::<ControlChange14BitMessage>(val));
-                let mut row = vec![3, c, n, v];
+                let mut row = vec![kind, c, n, v];
                 match r {
                     Some(Ok(m)) => {
                         let (lsb, _) = guarded(|| m.lsb_controller_number().get() as i64);
@@ -179,22 +180,28 @@ pub fn table_serde(dir: &str, _tier: &str, _seed: u64, per: usize) -> (usize, u6
                     None => row.push(PANIC),
                 }
                 w.push(&row);
+              }
             }
         }
     }
 
     // ParameterNumberMessage
     let dts = ["DataEntry", "DataIncrement", "DataDecrement", "Bogus"];
-    for &c in &[0i64, 15, 16] {
-        for &n in &[0i64, 16383, 16384] {
-            for &v in &[0i64, 1, 127, 128, 3000, 16383, 16384] {
+    for &c in &[0i64, 9, 15, 16] {
+        for &n in &[0i64, 1, 5, 6, 7, 127, 128, 16383, 16384] {
+            for &v in &[0i64, 1, 15, 16, 100, 127, 128, 640, 3000, 16383, 16384] {
                 for reg in 0..2 {
                     for b14 in 0..2 {
                         for dt in 0..4 {
-                            let val = json!({"channel": c, "number": n, "value": v, "is_registered": reg == 1,
-                                             "is_14_bit": b14 == 1, "data_type": dts[dt as usize]});
+                          for kind in [4i64, 8] {
+                            let val = if kind == 4 {
+                                json!({"channel": c, "number": n, "value": v, "is_registered": reg == 1,
+                                       "is_14_bit": b14 == 1, "data_type": dts[dt as usize]})
+                            } else {
+                                json!([c, n, v, reg == 1, b14 == 1, dts[dt as usize]])
+                            };
                             let (r, _) = guarded(|| from_value::<ParameterNumberMessage>(val));
-                            let mut row = vec![4, c, n, v, reg, b14, dt];
+                            let mut row = vec![kind, c, n, v, reg, b14, dt];
                             match r {
                                 Some(Ok(m)) => {
                                     let (enc, _) = guarded(|| {
@@ -211,6 +218,7 @@ pub fn table_serde(dir: &str, _tier: &str, _seed: u64, per: usize) -> (usize, u6
                                 None => row.push(PANIC),
                             }
                             w.push(&row);
+                          }
                         }
                     }
                 }
